@@ -282,10 +282,13 @@ func (w *World) readDirectives(pkg *ssa.Package, f *ast.File) error {
 				if fn == nil || len(pos) < 1 {
 					return fmt.Errorf("%s: model directive needs a function and a target", where)
 				}
-				w.Models[pos[0]] = fn
-				w.ModelPkg[pos[0]] = pkg.Pkg.Path()
+				// a model is scoped to the harnesses of the package that declares it (two packages may model one
+				// dependency differently) unless it is marked global
 				if len(pos) > 1 && pos[1] == "global" {
+					w.Models[pos[0]] = fn
 					w.ModelPkg[pos[0]] = ""
+				} else {
+					w.Models[pos[0]+"@"+pkg.Pkg.Path()] = fn
 				}
 			case "maypanic":
 				if len(pos) < 1 {
